@@ -111,83 +111,6 @@ pub proof fn lemma_interp0_as_id_sum<C: Ciphersuite>(kps: Seq<KeyPackage<C>>, sr
     }
 }
 
-// a finite set of identifiers has an ascending duplicate-free enumeration (so `sorted_seq` is well defined)
-//@serves C06 C03 C01 C11
-pub proof fn lemma_sorted_exists<C: Ciphersuite>(s: Set<Identifier<C>>)
-    requires s.finite()
-    ensures sorted_seq(s).no_duplicates(), sorted_seq(s).to_set() == s, vstd::std_specs::btree::increasing_seq(sorted_seq(s))
-{
-    use_id_order::<C>();
-    lemma_sorted_exists_aux::<C>(s);
-}
-
-//@serves C06 C03 C01 C11
-pub proof fn lemma_sorted_exists_aux<C: Ciphersuite>(s: Set<Identifier<C>>)
-    requires s.finite()
-    ensures exists|q: Seq<Identifier<C>>| q.no_duplicates() && q.to_set() == s && vstd::std_specs::btree::increasing_seq(q)
-    decreases s.len()
-{
-    use_id_order::<C>();
-    broadcast use vstd::std_specs::btree::axiom_increasing_seq_meaning;
-    if s.len() == 0 {
-        let q = Seq::<Identifier<C>>::empty();
-        assert(q.to_set() =~= s);
-        assert(vstd::std_specs::btree::increasing_seq(q));
-    } else {
-        // pick the maximum m of s, sort s \ {m}, append m
-        let m = lemma_set_max::<C>(s);
-        let s1 = s.remove(m);
-        lemma_sorted_exists_aux::<C>(s1);
-        let q1 = choose|q: Seq<Identifier<C>>| q.no_duplicates() && q.to_set() == s1 && vstd::std_specs::btree::increasing_seq(q);
-        let q = q1.push(m);
-        assert(q.no_duplicates()) by {
-            assert forall|i: int, j: int| 0 <= i < q.len() && 0 <= j < q.len() && i != j implies q[i] != q[j] by {
-                if i == q1.len() { assert(q1.contains(q[j])); assert(s1.contains(q1[j])); }
-                if j == q1.len() { assert(q1.contains(q[i])); assert(s1.contains(q1[i])); }
-            }
-        }
-        assert(q.to_set() =~= s) by {
-            assert forall|x: Identifier<C>| q.to_set().contains(x) <==> s.contains(x) by {
-                if q.contains(x) { let w = choose|w: int| 0 <= w < q.len() && q[w] == x; if w < q1.len() { assert(q1.contains(q1[w])); assert(s1.contains(x)); } }
-                if s.contains(x) { if x == m { assert(q[q1.len() as int] == x); } else { assert(s1.contains(x)); assert(q1.to_set().contains(x));
-                    let w = choose|w: int| 0 <= w < q1.len() && q1[w] == x; assert(q[w] == x); } }
-            }
-        }
-        assert(vstd::std_specs::btree::increasing_seq(q)) by {
-            assert forall|i: int, j: int| #![trigger q[i], q[j]] 0 <= i < j < q.len() implies lt(q[i], q[j]) by {
-                if j < q1.len() { assert(lt(q1[i], q1[j])); }
-                else { assert(q1.contains(q1[i])); assert(s1.contains(q[i])); }
-            }
-        }
-    }
-}
-
-// a non-empty finite set of identifiers has a maximum w.r.t. the identifier order
-//@serves C06 C03 C01 C11
-pub proof fn lemma_set_max<C: Ciphersuite>(s: Set<Identifier<C>>) -> (m: Identifier<C>)
-    requires s.finite(), s.len() > 0
-    ensures s.contains(m), forall|x: Identifier<C>| s.contains(x) && x != m ==> lt(x, m)
-    decreases s.len()
-{
-    use_id_order::<C>();
-    let x0 = s.choose();
-    let s1 = s.remove(x0);
-    if s1.len() == 0 {
-        assert forall|x: Identifier<C>| s.contains(x) && x != x0 implies lt(x, x0) by { assert(s1.contains(x)); }
-        x0
-    } else {
-        let m1 = lemma_set_max::<C>(s1);
-        ax_identifier_total::<C>(x0, m1);
-        if lt(x0, m1) {
-            assert forall|x: Identifier<C>| s.contains(x) && x != m1 implies lt(x, m1) by { if x != x0 { assert(s1.contains(x)); } }
-            m1
-        } else {
-            assert forall|x: Identifier<C>| s.contains(x) && x != x0 implies lt(x, x0) by { assert(s1.contains(x)); if x != m1 { assert(lt(x, m1)); } }
-            x0
-        }
-    }
-}
-
 // C06 (soundness, value): a share whose secret value was altered is rejected
 //@serves C06 C08
 pub proof fn thm_tampered_value_rejected<C: Ciphersuite>(sh: SecretShare<C>, id: Identifier<C>, a: Seq<Scalar<C>>, bad: SecretShare<C>)
